@@ -8,7 +8,8 @@ Nothing here touches /repo.
 import glob, json, os, re, shutil, subprocess, sys
 
 pid, tag, checks = sys.argv[1], sys.argv[2], sys.argv[3].split(',')
-ks = sys.argv[4:] or sorted(re.search(r'mut(\d+)\.diff', f).group(1) for f in glob.glob(f'/tmp/rt/{pid}b_mut*.diff'))
+RL = os.environ.get('RL', 'b')          # round letter in the red-team file names (<ID>b_mut1, <ID>c_mut1 ...)
+ks = sys.argv[4:] or sorted(re.search(r'mut(\d+)\.diff', f).group(1) for f in glob.glob(f'/tmp/rt/{pid}{RL}_mut*.diff'))
 wt = f'/tmp/rt/{pid}'
 PY = '/venv/bin/python'
 
@@ -23,7 +24,7 @@ def demo(path):
 
 
 for k in ks:
-    base = f'/tmp/rt/{pid}b_mut{k}'
+    base = f'/tmp/rt/{pid}{RL}_mut{k}'
     diff, dm = base + '.diff', base + '_demo.py'
     meta = json.load(open(base + '.json')) if os.path.exists(base + '.json') else {}
     sh(['git', '-C', wt, 'checkout', '--', '.'])
@@ -41,7 +42,7 @@ for k in ks:
     sh(['git', '-C', wt, 'checkout', '--', '.'])
     confirmed = clean_rc == 0 and mut_rc == 1 and bool(re.search(r'\d+ passed', tail)) and not re.search(r'\d+ (failed|error)', tail)
     # run the checks
-    d = f'/tmp/mut/work_{pid}b_{k}'
+    d = f'/tmp/mut/work_{pid}{RL}_{k}'
     shutil.rmtree(d, ignore_errors=True); os.makedirs(d)
     for sub in ('param', 'numbergen'):
         shutil.copytree('/repo/' + sub, d + '/' + sub)
@@ -64,7 +65,7 @@ for k in ks:
         os.makedirs(sd, exist_ok=True)
         shutil.copy(diff, sd + '/patch.diff'); shutil.copy(dm, sd + '/demo.py')
         meta.update({'property': pid, 'tests': tail,
-                     'origin': 'independent sub-agent given only the property text and a scratch worktree (second round: told which ideas were already used)',
+                     'origin': 'independent sub-agent given only the property text and a scratch worktree (later round: told which ideas were already used)',
                      'confirmed': f'demo exits 0 on the clean tree and 1 with the patch; full suite with the patch: {tail} (re-run by the lead in {wt})',
                      'first_result': out.get(pid, '?'), 'results': out,
                      'checks_run': './check <id> --tier quick with VERIF_REPO=<scratch copy of /repo with the patch>'})
